@@ -12,6 +12,7 @@ from reactivex.disposable import Disposable
 from vlib.core import FAIL, OK, SKIP, Check, HarnessError
 from vlib.difftools import (
     HProbe,
+    guard_spin,
     coldify,
     dispose_tree,
     first_diff,
@@ -99,6 +100,7 @@ def _world(build, plan, inner_pol):
     subscription k-1 was made; {"mode": "seq", "d": n} subscribes n ticks after subscription k-1 terminated (or was
     disposed at its horizon).  Returns (lab, probes, number of build-time sources)."""
     lab = Lab()
+    guard_spin(lab)
     obs, reset = build(lab)
     nb = len(lab.sources)
     probes = []
@@ -435,6 +437,6 @@ def _scripted_cases(max_ops):
 def checks(tier):
     q = tier == "quick"
     return [
-        Check("generic", _run_generic, strategy=_generic_cases(4 if q else 6), examples={"quick": 3000, "thorough": 16 * 30000}, shards={"quick": 6, "thorough": 16}),
-        Check("scripted", _run_scripted, strategy=_scripted_cases(2 if q else 3), examples={"quick": 1800, "thorough": 16 * 15000}, shards={"quick": 6, "thorough": 16}),
+        Check("generic", _run_generic, strategy=_generic_cases(4 if q else 6), examples={"quick": 6000, "thorough": 16 * 30000}, shards={"quick": 8, "thorough": 16}),
+        Check("scripted", _run_scripted, strategy=_scripted_cases(2 if q else 3), examples={"quick": 3200, "thorough": 16 * 15000}, shards={"quick": 8, "thorough": 16}),
     ]
